@@ -169,8 +169,11 @@ def lean_obligations(prop: str, extra_targets=(), recheck=False):
     names, rc3, out3 = [], 0, ""
     for pf in prop_files:
         names += theorem_names(pf.read_text())
-        rc_, out_ = run_cmd(["lake", "env", "lean", str(pf.relative_to(LEAN))], cwd=str(LEAN))
-        rc3, out3 = max(rc3, rc_), out3 + out_
+    # the property files are independent of one another: re-elaborate them side by side
+    from concurrent.futures import ThreadPoolExecutor
+    with ThreadPoolExecutor(max_workers=min(8, len(prop_files))) as ex:
+        for rc_, out_ in ex.map(lambda pf: run_cmd(["lake", "env", "lean", str(pf.relative_to(LEAN))], cwd=str(LEAN)), prop_files):
+            rc3, out3 = max(rc3, rc_), out3 + out_
     ax = {}
     for m in re.finditer(r"'([^']+)' depends on axioms: \[([^\]]*)\]", out3):
         ax[m.group(1)] = [a.strip() for a in m.group(2).replace("\n", " ").split(",") if a.strip()]
